@@ -356,6 +356,32 @@ func init() {
 		})
 		sort.Strings(lockers)
 
+		// does GetJournals' visitor give the visited partition back itself when it aborts? (repair of F15)
+		visitorReleases := false
+		gj := funcDecl(pf, "Service", "GetJournals")
+		if gj == nil {
+			problem("partition.Service.GetJournals not found")
+		} else {
+			ast.Inspect(gj.Body, func(m ast.Node) bool {
+				fl, ok := m.(*ast.FuncLit)
+				if !ok || fl.Type.Params == nil || len(fl.Type.Params.List) < 2 || len(fl.Type.Params.List[1].Names) == 0 {
+					return true
+				}
+				jn := fl.Type.Params.List[1].Names[0].Name
+				ast.Inspect(fl.Body, func(k ast.Node) bool {
+					if c, ok := k.(*ast.CallExpr); ok {
+						if se, ok := c.Fun.(*ast.SelectorExpr); ok && se.Sel.Name == "Release" && len(c.Args) == 1 {
+							if id, ok := c.Args[0].(*ast.Ident); ok && id.Name == jn {
+								visitorReleases = true
+							}
+						}
+					}
+					return true
+				})
+				return false
+			})
+		}
+
 		strList := func(xs []string) string {
 			q := make([]string, len(xs))
 			for i, x := range xs {
@@ -372,6 +398,9 @@ func init() {
 		l.p("def blockingCallsInsideExclusiveSection : List String := %s", strList(blocking))
 		l.p("/-- functions outside pkg/tindex that call `LockExclusively` -/")
 		l.p("def lockExclusivelyCallers : List String := %s", strList(lockers))
+		l.p("/-- `GetJournals`' visitor calls `Release` on the partition it is visiting (before it aborts on a failed")
+		l.p("`Journals.GetOrCreate`): the repair of F15 -/")
+		l.p("def getJournalsVisitorReleasesFailed : Bool := %s", leanBool(visitorReleases))
 		l.p("/-- `LockExclusively` succeeds only when `td.readers ==` this value -/")
 		l.p("def lockExclusivelyReaders : Int := %d", lockReaders)
 		l.write()
